@@ -10,7 +10,7 @@
     `buildFunctionPattern`, in the same order, and no call is rejected (`k_buildFunctionPattern_regions`, per-run, kernel
     evaluation).  The statement for an arbitrary `Version` value (not from the table) is not proved (`_partial` below).
 -/
-import Gzx.Obligations.K01dVer
+import Gzx.Obligations.K01d
 namespace Gzx.Obligations.K01d
 open Gzx Gzx.GoM Gzx.GoVal Gzx.QRDec
 
